@@ -215,15 +215,21 @@ func (u *uploader) ListParts(bucket, object string, uploadID UploadID, marker in
 		StorageClass:     "STANDARD", // FIXME
 	}
 
+	// The listing begins after the part-number-marker, which may lie anywhere,
+	// including beyond the highest part:
+	if marker < 0 || marker >= len(mpu.parts) {
+		marker = len(mpu.parts)
+	}
+
 	var cnt int64
-	for partNumber, part := range mpu.parts[marker:] {
+	for partNumber := marker + 1; partNumber < len(mpu.parts); partNumber++ {
+		part := mpu.parts[partNumber]
 		if part == nil {
 			continue
 		}
 
 		if cnt >= limit {
 			result.IsTruncated = true
-			result.NextPartNumberMarker = partNumber
 			break
 		}
 
@@ -233,6 +239,7 @@ func (u *uploader) ListParts(bucket, object string, uploadID UploadID, marker in
 			PartNumber:   partNumber,
 			LastModified: part.LastModified,
 		})
+		result.NextPartNumberMarker = partNumber
 
 		cnt++
 	}
